@@ -638,3 +638,55 @@ def _replay_ct(model, ob):
     finally:
         cache_mod.template_cache = saved
     return {"confirmed": False}
+
+
+def _lru_battery(model, ob):
+    """every get / set / has / clear sequence up to length 5 over 3 keys, sizes None, 0, 1, 2, 3, on the real LRUCache, against a
+    reference LRU (list, most recent first): results, membership, order of the linked list, dict <-> list agreement, bound"""
+    import itertools
+    from django_components.util.cache import LRUCache
+    ops_ = [("get", k) for k in "abc"] + [("set", k) for k in "abc"] + [("has", "a"), ("clear", None)]
+    for size in (None, 0, 1, 2, 3):
+        for n in range(1, 6):
+            for seq in itertools.product(ops_, repeat=n):
+                if n == 5 and seq[0][0] != "set":
+                    continue
+                c = LRUCache(maxsize=size)
+                ref = []           # [(key, value)], most recently used first
+                for step, (op, k) in enumerate(seq):
+                    if op == "get":
+                        got = c.get(k)
+                        hit = next((v for kk, v in ref if kk == k), None)
+                        if hit is not None:
+                            ref = [(k, hit)] + [e for e in ref if e[0] != k]
+                        ok = got == hit
+                    elif op == "set":
+                        v = (k, step)
+                        c.set(k, v)
+                        if size is None or size > 0:
+                            ref = [(k, v)] + [e for e in ref if e[0] != k]
+                            if size is not None and len(ref) > size:
+                                ref = ref[:size]
+                        ok = True
+                    elif op == "has":
+                        ok = c.has(k) == any(kk == k for kk, _v in ref)
+                    else:
+                        c.clear()
+                        ref = []
+                        ok = True
+                    order, node = [], c.head.next
+                    while node is not c.tail and len(order) < 10:
+                        order.append((node.key, node.value))
+                        node = node.next
+                    back, node = [], c.tail.prev
+                    while node is not c.head and len(back) < 10:
+                        back.append((node.key, node.value))
+                        node = node.prev
+                    if not ok or order != ref or back != ref[::-1] or set(c.cache) != {kk for kk, _v in ref} or any(c.cache[kk].key != kk for kk in c.cache):
+                        return {"confirmed": True, "function": "LRUCache", "inputs": {"maxsize": size, "operations": [f"{o}({a})" if a else o for o, a in seq[:step + 1]]},
+                                "expected": f"order (MRU first) {ref}", "observed": f"forward {order}, backward {back}, dict keys {sorted(c.cache)}, last result ok={ok}"}
+    return {"confirmed": False}
+
+
+for _m in ("__init__", "get", "set", "has", "clear", "_remove", "_add_to_front"):
+    REG.replays[f"{MOD}:LRUCache.{_m}"] = _lru_battery
